@@ -485,3 +485,28 @@ func TestC10_IndexFieldNames(t *testing.T) {
 		t.Errorf("Sources Standards-Version field not decoded: %v %v", si, err)
 	}
 }
+
+func TestC08_StableOnOddReaderOutput(t *testing.T) {
+	for _, s := range []string{"\r#foo: bar\n", "a:\n \rx\n", "\v#k: v\nb: c\n"} {
+		ps, err := readAll(t, s)
+		if err != nil {
+			continue // rejecting such input is fine
+		}
+		var buf bytes.Buffer
+		for i := range ps {
+			ps[i].WriteTo(&buf)
+		}
+		qs, err := readAll(t, buf.String())
+		if err != nil || len(qs) != len(ps) {
+			t.Errorf("%q reads as %d paragraphs, written %q, which reads as %d (%v)", s, len(ps), buf.String(), len(qs), err)
+			continue
+		}
+		for i := range ps {
+			for _, k := range ps[i].Order {
+				if strings.TrimSuffix(qs[i].Values[k], "\n") != strings.TrimSuffix(ps[i].Values[k], "\n") {
+					t.Errorf("%q: field %q %q becomes %q", s, k, ps[i].Values[k], qs[i].Values[k])
+				}
+			}
+		}
+	}
+}
